@@ -865,6 +865,10 @@ class TexExpr(object):
             if content is expr:
                 break
         else:
+            if isinstance(expr, TexExpr):
+                # an expression is removed by identity only: one that is no
+                # longer here must not take an equal-looking sibling with it
+                raise ValueError('%r is not in contents' % expr)
             index = self._contents.index(expr)
         del self._contents[index]
         return index
